@@ -54,6 +54,9 @@ CHECKS = {
  "C08": dict(engine="mirsmt", technique="SMT over a character-level encoding generated from the MIR of sanitize_metric_name/sanitize_label_key/sanitize_label_value/sanitize_description, key_to_parts, write_help_line/write_type_line/write_metric_line and Inner::render; the oracle is a strict exposition-format parser run as a symbolic automaton over the produced characters; counterexamples replayed natively against an independent strict parser",
     text="every string of the stated length (each character any Unicode scalar value) as name, label key, label value and description; every Unit; unit suffix on/off; described or not; counter, gauge, histogram and summary families: names match the grammar, values/help text are escaped, every line is a HELP/TYPE/sample/blank line, one TYPE per family before its samples, sample names are the family name plus an allowed suffix (K5 known)",
     note="bounded string lengths (names <= 3-4, values <= 4-5 characters, 1-character label parts in key_to_parts); one family with one label set per render scenario; Display text of numbers is an opaque token; get_recent_metrics, the description map and hash-map iteration order are modelled (concrete shape, symbolic content)", ref="§4 C08"),
+ "C19": dict(engine="mirsmt", technique="SMT over sequential encodings generated from the MIR of DebuggingRecorder::{describe_*,register_*,describe_metric,track_metric} and Snapshotter::snapshot with keyed containers of concrete size and symbolic content; the oracle is a reference model of the snapshot; counterexamples replayed through the public API",
+    text="three history shapes (ordering / re-registration / described-only / current values; metadata precedence across two descriptions and three kinds sharing a name; histogram values over three snapshots) with symbolic units, descriptions and values: the snapshot equals the reference",
+    note="fixed history shapes of <= 7 calls; abstract key identities; registry, atomic bucket, IndexMap/HashMap/Mutex by their contracts; single thread (the thread-locality clause is C01's)", ref="§4 C19"),
 }
 NA = {}
 ids = [json.loads(l)["id"] for l in open(os.path.join(V, "properties.jsonl"))]
